@@ -107,7 +107,7 @@ func TestVF_C49(t *testing.T) {
 	r.Rule(fmt.Sprintf("case = a list of 1..16 distinct literal memcached addresses (IPv4 statefulset-like with numbers crossing 9->10 / subnets+ports / IPv6 / unix sockets / mixed) x %d distinct keys; "+
 		"oracle: PickServer(k) is a configured address, PickServerForKeys lists every key exactly once under PickServer(k), two more permutations of the list give the same answers, "+
 		"after SetServers(list + one new address) every key stays or moves to the new address; distinct = hash of the list + new address; non-trivial = >= 2 servers", nKeys))
-	n := r.N(300, 20000)
+	n := r.N(300, 5000) // SetServers (regexp natural sort) dominates under -race: ~0.15 s per list
 	r.Require(int64(n)*4, n/2)
 	r.Assume("addresses are literal IPs / unix paths without leading zeros or duplicates (names would need DNS, which SetServers resolves and the sandbox lacks)")
 	// One pool of distinct keys per run (a function of the seed); every case uses its own window of it.
